@@ -720,6 +720,233 @@ def record_after_partial_line(ctx, rid):
 
 
 # ------------------------------------------------------------------------------------------------
+# R3.11  redo-stamp hashes all of its input
+
+def stamp_reads_to_eof(ctx, rid):
+    ctx.rule(rid, "redo-stamp's checksum covers the whole of stdin: the data reaches the hasher through io::copy / read_to_end, or through a read loop that ends only on a zero-length read (a short read from a pipe is not the end of the input)")
+    prog = ctx.prog
+    B = prog.one(r"@bin::stamp::run")
+    ba = BA.of(B)
+    whole = ba.calls(r"std::io::copy::copy|std::io::Read::read_to_end|std::io::Read::read_to_string|.*::read_to_end|.*::read_to_string")
+    reads = [i for i in ba.all_calls() if any(re.fullmatch(r"(<.* as )?std::io::Read(>)?::read|std::io::Read::read|.*Stdin(Lock)? as std::io::Read>::read", p_) for p_ in callee_paths(B.blocks[i]["term"]))]
+    if whole and not reads:
+        ctx.ob(rid, "%s|input-consumed-to-EOF" % B.key, True, where=ctx.where(B, whole[0]), detail="%s consumes stdin to end of file" % common.short(callee_paths(B.blocks[whole[0]]["term"])[0]))
+        return
+    if not reads:
+        ctx.ob(rid, "%s|input-consumed-to-EOF" % B.key, False, where=B.span, detail="no read of stdin found in redo-stamp")
+        return
+    for k, r_ in common.ordinal_keys([("read", x) for x in reads]):
+        # the loop around this read may be left only on `n == 0` (or on an error)
+        d = B.blocks[r_]["term"]["dest"]["l"]
+        tn = taint(B, seeds={d}, mode="derived")
+        bad = []
+        for sw in sorted(ba.live):
+            bs = ba.bool_switch(sw)
+            if not bs:
+                continue
+            t_t, f_t, (kind, info) = bs
+            if kind != "binop":
+                continue
+            rv = info[1]
+            la, lb = op_local(rv["a"]), op_local(rv["b"])
+            if not ((la in tn) or (lb in tn)):
+                continue
+            ca, cb = const_int(rv["a"]), const_int(rv["b"])
+            zero_test = (ca == 0 or cb == 0) and rv["op"] in ("Eq", "Ne")
+            if zero_test:
+                continue
+            # a comparison of the byte count with something else: does one side leave the loop (cannot come back to the read)?
+            for side in (t_t, f_t):
+                if ba.path([side], [r_], incl=True) is None:
+                    bad.append(sw)
+        ctx.ob(rid, "%s|%s|loop-ends-only-on-zero-length-read" % (B.key, k), not bad, where=ctx.where(B, bad[0] if bad else r_),
+               detail="the read loop ends on a zero-length read only" if not bad else
+               "the read loop is left on a test of the byte count other than `== 0`: a short read from a pipe ends the hashing early and later bytes never reach the checksum")
+
+
+# ------------------------------------------------------------------------------------------------
+# R4.8  how much the script wrote to stdout is read from the capture file itself
+
+def stdout_amount_from_fstat(ctx, rid):
+    ctx.rule(rid, "record_new_state learns whether the script wrote to stdout from the capture file's metadata (fstat size), not from the shared file offset: output produced by re-opening /dev/stdout moves no offset")
+    prog = ctx.prog
+    R = anchors.record_new_state(prog)
+    ba = BA.of(R)
+    meta = [i for i in ba.calls(r"std::fs::File::metadata")]
+    offs = [i for i in ba.all_calls() if any(re.fullmatch(r"(<std::fs::File as std::io::Seek>|std::io::Seek)::(seek|stream_position)", p_) for p_ in callee_paths(R.blocks[i]["term"]))]
+    mt = taint(R, seeds={R.blocks[i]["term"]["dest"]["l"] for i in meta}, mode="derived") if meta else set()
+    ot = taint(R, seeds={R.blocks[i]["term"]["dest"]["l"] for i in offs}, mode="derived") if offs else set()
+    n_meta = n_off = 0
+    where = None
+    for (sw, ne_t, eq_t, x) in common.cmp_const_switches(R, 0):
+        pass
+    for sw in sorted(ba.live):
+        bs = ba.bool_switch(sw)
+        if not bs or bs[2][0] != "binop":
+            continue
+        rv = bs[2][1][1]
+        if rv["op"] not in ("Gt", "Lt", "Ge", "Le", "Eq", "Ne"):
+            continue
+        if const_int(rv["a"]) != 0 and const_int(rv["b"]) != 0:
+            continue
+        l = op_local(rv["a"]) if const_int(rv["b"]) == 0 else op_local(rv["b"])
+        if l is None:
+            continue
+        if l in mt and "u64" in R.locals[l]:
+            n_meta += 1
+        elif l in ot and l not in mt:
+            n_off += 1
+            where = sw
+    ok = n_meta >= 1 and n_off == 0
+    ctx.ob(rid, "%s|stdout-size-from-metadata" % R.key, ok, where=ctx.where(R, where) if where is not None else R.span,
+           detail="`wrote to stdout` is decided on File::metadata().size() (%d tests)" % n_meta if ok else
+           ("`wrote to stdout` is decided on the file offset (seek): output written through a re-opened /dev/stdout is not seen, the target is deleted or $3 wins silently" if n_off else "no size test on the capture file's metadata found"))
+
+
+# ------------------------------------------------------------------------------------------------
+# R5.12  the dirtiness callback's error keeps its cause chain on the way to BuildJob::start
+
+def callback_error_keeps_cause(ctx, rid):
+    ctx.rule(rid, "the adapter that builder::run puts around the dirtiness callback converts its error with a constructor that keeps the original as `cause` (RedoError::wrap), because BuildJob::start recognises `already failed in this run` (ImmediateExit) by walking the cause chain")
+    prog = ctx.prog
+    fwd = []
+    for b in prog.bodies.values():
+        if not b.key.startswith("builder::run"):
+            continue
+        for i in BA.of(b).all_calls():
+            t = b.blocks[i]["term"]
+            at = t.get("arg_tys") or []
+            if re.fullmatch(r"core::ops::function::Fn(Mut|Once)?::call(_mut|_once)?", strip_generics(t.get("callee") or "")) and len(at) == 2 and at[0] in ("&F", "F", "&mut F") and "ProcessTransaction" in at[1]:
+                fwd.append(b)
+    if not ctx.floor(rid, "adapter closures around the dirtiness callback", len(fwd), 1):
+        return
+    J = anchors.job_start(prog)
+    walks = any(re.search(r"error::Error(>)?::source|immediate_exit_code", p_) for b in [J] + [prog.bodies[k] for k in ctx.cg.reachable([J.key], indirect=False) if k in prog.bodies and k.startswith("builder::")]
+                for i in BA.of(b).all_calls() for p_ in callee_paths(b.blocks[i]["term"]))
+    for b in fwd:
+        fam = [b] + [c for k, c in prog.bodies.items() if k.startswith(b.key + "::{")]
+        keeps = [c for c in fam if BA.of(c).calls(r"error::RedoError::wrap")]
+        drops = [c for c in fam if BA.of(c).calls(r"error::RedoError::(opaque_error|new)")]
+        ok = bool(keeps) and not drops
+        ctx.ob(rid, "%s|error-converted-with-cause" % b.key, ok or not walks, where=b.span,
+               detail="the callback's error is wrapped with its cause kept" if ok else
+               "the callback's error is flattened (opaque_error / new): ImmediateExit(32) is no longer found in the cause chain, `already failed` aborts the whole command and --keep-going stops building")
+
+
+# ------------------------------------------------------------------------------------------------
+# R5.13  redo exports a boolean option only when it was given
+
+def flags_exported_only_when_set(ctx, rid):
+    ctx.rule(rid, "`redo` writes REDO_KEEP_GOING (and the other boolean option variables) only with the constant \"1\": it never writes an `off` value, which would switch off an option inherited from the enclosing `redo -k` for everything below")
+    prog = ctx.prog
+    B = prog.one(r"@bin::run_redo")
+    fam = [B] + [c for k, c in prog.bodies.items() if k.startswith(B.key + "::")]
+    names = {"REDO_KEEP_GOING", "REDO_SHUFFLE", "REDO_DEBUG_LOCKS", "REDO_DEBUG_PIDS"}
+    seen = set()
+    for b in fam:
+        ba = BA.of(b)
+        for i in ba.calls(r"std::env::set_var"):
+            t = b.blocks[i]["term"]
+            c0 = op_const(t["args"][0])
+            nm = (c0 or {}).get("str")
+            if nm is None:
+                # the name is not a literal here (a helper taking the name): every literal boolean-option name that can
+                # reach it is affected
+                origins = common.const_origins(b, t["args"][0]) if hasattr(common, "const_origins") else None
+                cand = {x for x in (origins or []) if isinstance(x, str)} & names
+                if not cand:
+                    continue
+                nms = cand
+            else:
+                if nm not in names:
+                    continue
+                nms = {nm}
+            v = op_const(t["args"][1])
+            vs = (v or {}).get("str")
+            ok = vs == "1"
+            for n_ in sorted(nms):
+                seen.add(n_)
+                ctx.ob(rid, "%s|%s|only-the-constant-1-is-written" % (B.key, n_), ok, where=ctx.where(b, i),
+                       detail="set_var(%s, \"1\")" % n_ if ok else "%s is written with a computed value: without the flag an inherited setting is overwritten with `off`" % n_)
+    ctx.floor(rid, "boolean option variables exported by redo", len(seen), 1)
+    ctx.ob(rid, "%s|REDO_KEEP_GOING-exported" % B.key, "REDO_KEEP_GOING" in seen, where=B.span, detail="--keep-going is exported to sub-redos")
+
+
+# ------------------------------------------------------------------------------------------------
+# R6.10  the lock file is opened once per process
+
+def lock_file_opened_once(ctx, rid):
+    ctx.rule(rid, "only LockManager::open opens the lock file: closing any other descriptor of that file would drop every fcntl lock the process holds (POSIX), i.e. the locks of its running jobs")
+    prog = ctx.prog
+    OPEN = r"std::fs::File::(open|create|create_new|options)|std::fs::OpenOptions::open|std::fs::read|std::fs::read_to_string|std::fs::metadata"
+    lm = [b for k, b in prog.bodies.items() if k.startswith("state::LockManager::") or k.startswith("<state::LockManager as")]
+    if not ctx.floor(rid, "LockManager bodies", len(lm), 2):
+        return
+    # (a) no LockManager method other than `open` opens a file
+    for b in sorted(lm, key=lambda x: x.key):
+        n = BA.of(b).calls(r"std::fs::OpenOptions::open|std::fs::File::(open|create|create_new)")
+        if not n:
+            continue
+        ok = b.key == "state::LockManager::open"
+        ctx.ob(rid, "%s|opens-a-file" % b.key, ok, where=ctx.where(b, n[0]),
+               detail="the one place the lock file is opened" if ok else "a LockManager method opens a file of its own: if that is the lock file, dropping the handle releases every lock this process holds")
+    ctx.ob(rid, "LockManager::open|present", any(b.key == "state::LockManager::open" and BA.of(b).calls(r"std::fs::OpenOptions::open|std::fs::File::(open|create)") for b in lm), where="", detail="LockManager::open opens the lock file")
+    # (b) nowhere is a file opened by a path kept in the LockManager (wherever that code was moved or spliced to)
+    hits = []
+    for b in prog.bodies.values():
+        if b.key == "state::LockManager::open":
+            continue
+        ba = BA.of(b)
+        for i in ba.calls(r"std::fs::OpenOptions::open|std::fs::File::(open|create|create_new)"):
+            for a in b.blocks[i]["term"]["args"]:
+                l = op_local(a)
+                if l is None:
+                    continue
+                for x in [l] + ba.ref_chain(l, depth=14):
+                    for dd in ba.defs.get(x, []):
+                        rvs = []
+                        if dd[0] == "stmt":
+                            rvs = [dd[3]]
+                        elif dd[0] == "call":
+                            # `AsRef::as_ref(&self.path)` and friends: look at the call's own arguments
+                            for a2 in dd[2].get("args", []):
+                                l2 = op_local(a2)
+                                if l2 is not None:
+                                    for y in [l2] + ba.ref_chain(l2, depth=8):
+                                        for d2 in ba.defs.get(y, []):
+                                            if d2[0] == "stmt":
+                                                rvs.append(d2[3])
+                        for rv in rvs:
+                            from core import rvalue_places
+                            for pl in rvalue_places(rv):
+                                if pl is not None and any(isinstance(e, str) and e.startswith("f:state::LockManager.") for e in pl["p"]):
+                                    hits.append((b, i))
+    ctx.ob(rid, "no-second-open-of-the-lock-file", not hits, where=ctx.where(hits[0][0], hits[0][1]) if hits else "",
+           detail="no file is opened by a path stored in the LockManager" if not hits else
+           "%s opens a file by a path stored in the LockManager: closing that second descriptor of the lock file drops every fcntl lock of the process, including those of running jobs" % hits[0][0].key)
+    # the path handed to LockManager::open is used for nothing else in init
+    I = prog.one(r"state::ProcessState::init")
+    iba = BA.of(I)
+    lo = iba.calls(r"state::LockManager::open")
+    if lo:
+        src = op_local(I.blocks[lo[0]]["term"]["args"][0])
+        roots = set(iba.ref_chain(src)) | {src}
+        others = []
+        for i in iba.all_calls():
+            if i == lo[0]:
+                continue
+            t = I.blocks[i]["term"]
+            if not any(re.fullmatch(OPEN, p_) for p_ in callee_paths(t)):
+                continue
+            for a in t["args"]:
+                l = op_local(a)
+                if l is not None and (l in roots or any(x in roots for x in iba.ref_chain(l))):
+                    others.append(i)
+        ctx.ob(rid, "%s|lock-path-only-for-LockManager::open" % I.key, not others, where=ctx.where(I, others[0] if others else lo[0]),
+               detail="the lock file path goes to LockManager::open only")
+
+
+# ------------------------------------------------------------------------------------------------
 # rules that are necessary conditions of several properties are evaluated once, in the table they were written
 # for, and reported under every property they matter to
 
@@ -763,14 +990,15 @@ TABLE = {
     "C02": [("R2.7", every_candidate_leaves_an_edge),
             ("R2.8", borrow("C03", "R3.2", None, "a build wrongly taken for a stamped one never advances changed_runid: the target and its dependents then re-run on every later redo-ifchange"))],
     "C13": [("R13.6", every_candidate_leaves_an_edge), ("R13.7", check_never_refreshes_stamps)],
-    "C03": [("R3.9", signal_death_is_failure), ("R3.10", uncertain_is_not_built_directly)],
+    "C03": [("R3.9", signal_death_is_failure), ("R3.10", uncertain_is_not_built_directly), ("R3.11", stamp_reads_to_eof)],
     "C05": [("R5.8", signal_death_is_failure),
             ("R5.9", borrow("C01", "R1.3", None, "the edge to a requested target must exist even when that target then fails, or the caller is not dirty next run and the failed target is never retried")),
-            ("R5.10", memo_after_failed_test)],   # + ("R5.11", decision_sees_finished_jobs) once the F-T fix is committed in /repo
-    "C04": [("R4.6", output_probed_with_lstat), ("R4.7", direct_modification_is_inequality)],
+            ("R5.10", memo_after_failed_test), ("R5.12", callback_error_keeps_cause), ("R5.13", flags_exported_only_when_set)],   # + ("R5.11", decision_sees_finished_jobs) once the F-T fix is committed in /repo
+    "C04": [("R4.6", output_probed_with_lstat), ("R4.7", direct_modification_is_inequality), ("R4.8", stdout_amount_from_fstat),
+            ("R4.9", borrow("C13", "R13.3", r"^[^|]*\|\$3=", "two targets that differ only in the matched extension must not share one temp output file: the second script's output would replace or destroy the first's"))],
     "C11": [("R11.8", direct_modification_is_inequality),
             ("R11.9", borrow("C15", "R15.2", None, "the record consulted for `generated / override` must be the one of the file the kernel will resolve: a spelling cleaned before symlinks are resolved selects another record and a user's file is replaced"))],
-    "C06": [("R6.9", verdict_only_under_lock)],
+    "C06": [("R6.9", verdict_only_under_lock), ("R6.10", lock_file_opened_once)],
     "C07": [("R7.5", verdict_only_under_lock),
             ("R7.6", borrow("C02", "R2.3", r"marked-edges-still-listed", "while a target is being rebuilt its marked edges are the only record of why it is dirty: a dependent evaluated by a parallel job must still see them")),
             ("R7.7", borrow("C13", "R13.3", r"^[^|]*\|\$3=", "two targets of one default.*.do that differ only in the matched extension must not share a temp output name when built in parallel"))],
@@ -778,7 +1006,8 @@ TABLE = {
     "C01": [("R1.9", check_never_refreshes_stamps),
             ("R1.10", borrow("C02", "R2.3", r"marked-edges-still-listed", "after an interrupted rebuild the marked edges are the only reason the target is dirty"))],
     "C14": [("R14.6", borrow("C02", "R2.3", r"marked-edges-still-listed", "an ifcreate / always edge of an interrupted rebuild must still make the target dirty"))],
-    "C09": [("R9.8", borrow("C12", "R12.2", None, "a lock id that is not registered turns a cycle into an endless fcntl wait"))],
+    "C09": [("R9.8", borrow("C12", "R12.2", None, "a lock id that is not registered turns a cycle into an endless fcntl wait")),
+            ("R9.9", borrow("C08", "R8.1", None, "a counter written outside the accounting functions breaks the top-level self-test: an all-success build exits 1"))],
     "C17": [("R17.6", ood_lists_every_nonclean), ("R17.7", check_never_refreshes_stamps)],
     "C18": [("R18.7", done_status_type_agrees), ("R18.8", seen_only_when_shown), ("R18.9", record_after_partial_line)],
     "C10": [("R10.8", rename_inside_result_transaction), ("R10.10", interrupted_creation_is_recoverable),
